@@ -66,7 +66,7 @@ TAlign == /\ Ev.e = "Align"
                   /\ UNCHANGED ref
           /\ UNCHANGED <<mode, cur>>
 
-TOther == Ev.e \in {"Grammar", "Lattice", "NBest", "Json", "Cmn", "SetCmn"} /\ UNCHANGED <<mode, ref, cur>>
+TOther == Ev.e \in {"Grammar", "Lattice", "NBest", "Json", "Cmn", "SetCmn", "AddWord", "SenMode"} /\ UNCHANGED <<mode, ref, cur>>
 
 TNext == /\ l <= Len(JTrace)
          /\ (THeader \/ TMark \/ TStart \/ TFeed \/ TEnd \/ TResult \/ TAlign \/ TOther)
